@@ -632,6 +632,8 @@ func main() {
 		{"emitSrc", []string{"EmitSrc.lean"}, genEmitSrc},
 		{"progressSrc", []string{"ProgressSrc.lean"}, genProgressSrc},
 		{"switches", []string{"Switches.lean"}, genSwitches},
+		{"batcherSrc", []string{"BatcherSrc.lean"}, genBatcherSrc},
+		{"sendBatchSrc", []string{"SendBatchSrc.lean"}, genSendBatchSrc},
 	}
 	status := map[string]interface{}{}
 	failed := 0
